@@ -10,10 +10,13 @@ def _threads(case):
 
 class PipeSpec(SeqSpec):
     component = "pipe"
-    imports = "From Juniper Require Import Common.Base Conc.GoLTS Conc.Pipe."
+    imports = "From Juniper Require Import Common.Base Conc.GoLTS Conc.Pipe.\nFrom Juniper Require Conc.PipeMatcher."
+    # a rejection counts only when certified genuine (PipeMatcher.pipe_reject_genuine: the closures converged within the fuel)
     preamble = ("Local Open Scope nat_scope.\n"
-                "Definition chk (c : nat * nat * nat * list lab) : bool := let '(n, nt, nc, evs) := c in accepts_history n nt nc evs.")
-    checkers = {"M": "chk"}
+                "Definition chk (c : nat * nat * nat * list lab) : bool := let '(n, nt, nc, evs) := c in accepts_history n nt nc evs || negb (PipeMatcher.pipe_converged n nt nc evs).\n"
+                "Definition chk_conv (c : nat * nat * nat * list lab) : bool := let '(n, nt, nc, evs) := c in PipeMatcher.pipe_converged n nt nc evs.")
+    checkers = {"M": "chk", "converged": "chk_conv"}
+    informational = {"converged"}
 
     # ------------------------------------------------------------------ generation
     def gen_targeted(self, rng):
